@@ -39,22 +39,53 @@ func forgeAns(name string, authentic bool, f func(t *env.Transport, rx *ref.Rx, 
 	// the forger answers the request it sees; if the BMC could not make sense
 	// of this transmission (a retransmission the library got wrong), it forges
 	// an answer to the last request that was understood
-	var last *ref.Rx
 	return histAnswer{Answer: env.Raw(name, func(t *env.Transport, rx *ref.Rx) []byte {
-		if rx == nil || rx.Sess == nil || rx.Msg == nil {
-			for i := len(t.BMC.Log) - 1; i >= 0 && last == nil; i-- {
-				if l := t.BMC.Log[i]; l.Sess != nil && l.Msg != nil {
-					last = l
-				}
-			}
-			rx = last
+		if rx != nil && (rx.Sess == nil || rx.Msg == nil) {
+			rx = forgerView(t, rx)
 		}
-		if rx == nil {
+		if rx == nil || rx.Sess == nil || rx.Msg == nil {
 			return nil
 		}
-		last = nil
 		return f(t, rx, rx.Sess)
 	}), Class: cls, Own: authentic}
+}
+
+// forgerView: the BMC could not make sense of this transmission (a
+// retransmission the library got wrong, a request signed with the wrong key, a
+// session the BMC has closed). The forger still answers it: it reads the
+// request with the keys of the most recent session (a forger inside the BMC's
+// trust domain; the forgeries themselves are judged by what they lack) and
+// takes the BMC's answer to that command as the body to falsify.
+func forgerView(t *env.Transport, rx *ref.Rx) *ref.Rx {
+	var cur *ref.Session
+	var curID uint32
+	for id, s := range t.BMC.Sessions {
+		if s.K2 != nil && (cur == nil || id > curID) {
+			cur, curID = s, id
+		}
+	}
+	if cur == nil {
+		return nil
+	}
+	p, err := ref.ParsePacket(rx.Raw, cur.IntegN)
+	if err != nil || !p.Encrypted {
+		if p2, err2 := ref.ParsePacket(rx.Raw, 0); err2 == nil && p2.Encrypted {
+			p, err = p2, nil
+		} else {
+			return nil
+		}
+	}
+	plain, _, err := ref.AESDecrypt(cur.K2, p.Payload)
+	if err != nil {
+		return nil
+	}
+	scratch := ref.NewBMC(t.BMC.Cfg)
+	v := scratch.Receive(ref.BuildPacket(ref.PTIPMI, false, 0, 0, plain, nil))
+	if v == nil || v.Msg == nil {
+		return nil
+	}
+	v.Sess = cur
+	return v
 }
 
 // forgeAlphabet: honest reply, the forgery catalogue, every single-bit flip
@@ -126,7 +157,9 @@ func forgeAlphabet(cfg histCfg, w *World) []histAnswer {
 		for id, old := range t.BMC.Sessions {
 			if id != s.HS.SIDC && old.K1 != nil && old.Integ != nil {
 				s.OutSeq++
-				return ref.BuildPacket(ref.PTIPMI, true, s.HS.SIDM, s.OutSeq, ref.AESEncrypt(old.K2, s.NextIV(), forgedMsg(rx)), old.Integ)
+				// encrypted under this session's K2 (so that it reads as a reply at
+				// all), authenticated under the earlier session's K1
+				return ref.BuildPacket(ref.PTIPMI, true, s.HS.SIDM, s.OutSeq, ref.AESEncrypt(s.K2, s.NextIV(), forgedMsg(rx)), old.Integ)
 			}
 		}
 		return nil
@@ -329,7 +362,7 @@ func answerKind(ans []string) string {
 var c04Base = map[string]*histObs{}
 
 func c04Baseline(cfg histCfg) *histObs {
-	k := fmt.Sprintf("%v/%v", cfg.Suite, cfg.Ops)
+	k := fmt.Sprintf("%v/%v/%v", cfg.Suite, cfg.Ops, cfg.Prior)
 	if b, ok := c04Base[k]; ok {
 		return b
 	}
